@@ -160,7 +160,7 @@ func c12Stream(o *out, r *rng, thorough bool) {
 				// half of the clients open the encrypted 3k3y image again and again (its key is read out of the image at
 				// every open) and read inside an encrypted region; the other half open other files (each open probes them)
 				sessions[i] = nil
-				for k := 0; k < 300; k++ {
+				for k := 0; k < 40; k++ {
 					if i%2 == 0 {
 						sessions[i] = append(sessions[i], creq{op: opOpenFile, path: "/GAMES3K3Y.iso"},
 							creq{op: opReadFile, a: 2048, b: uint64(7*2048 + (k%3)*700)})
@@ -180,9 +180,9 @@ func c12Stream(o *out, r *rng, thorough bool) {
 			if err != nil {
 				return
 			}
-			plainFs = storm
+			plainFs, plainBetween = storm, "/shared/raw.bin"
 			env := newConnEnv(root, true, 65536)
-			plainFs = false
+			plainFs, plainBetween = false, ""
 			defer env.close()
 			results := make([]string, nc)
 			var wg sync.WaitGroup
@@ -228,6 +228,9 @@ func c12Stream(o *out, r *rng, thorough bool) {
 			}
 			close(startGate)
 			wg.Wait()
+			if storm {
+				o.count(fmt.Sprintf("interleaved-opens:%d", betweenCalls.Load()/1000*1000))
+			}
 			for i := 0; i < nc; i++ {
 				o.count(fmt.Sprintf("clients:%d", nc))
 				o.emit(fmt.Sprintf("connq 1 %s %s", encodeTree(nodes), encodeReqs(sessions[i])), results[i], "", fmt.Sprintf("r%dc%d", round, i))
